@@ -32,3 +32,126 @@ func VerifC07_PendingTask() {
 	verifAssert(verifGet(&nx) == 0, "a cancelled instance does not move on")
 	verifAssert(inst.count("a") <= 1, "no task request is repeated because of the cancellation")
 }
+
+// a token listens at a catch event; the context is cancelled (a) once everything is quiet, (b) at an arbitrary point
+func verifC07Catch(anywhere bool) {
+	inst, h1, _ := verifC11Inst()
+	if inst == nil {
+		return
+	}
+	if anywhere {
+		go func() { inst.cancel() }()
+		inst.tokenAt("c1", "f0")
+	} else {
+		inst.tokenAt("c1", "f0")
+		verifQuiesce()
+		inst.cancel()
+	}
+	done := make(chan struct{})
+	go func() {
+		inst.proc.flowWaitGroup.Wait()
+		close(done)
+	}()
+	verifQuiesce()
+	verifReach("quiescent")
+	select {
+	case <-done:
+	default:
+		verifAssert(false, "after cancellation every token's goroutine exits")
+	}
+	verifAssert(verifGet(h1) == 0, "a cancelled instance does not move on")
+}
+
+func VerifC07_ListeningCatch()         { verifC07Catch(false) }
+func VerifC07_ListeningCatchAnywhere() { verifC07Catch(true) }
+
+// a token waits at a parallel join that is half full
+func VerifC07_HalfFullJoin() {
+	b := verifNewB("p")
+	b.flow("i1", "s", "gw", false)
+	b.flow("i2", "s", "gw", false)
+	b.parallel("gw", []string{"i1", "i2"}, []string{"o"})
+	b.flow("o", "gw", "t", false)
+	b.task("t", []string{"o"}, nil)
+	inst := verifNewInst(b)
+	if inst.proc == nil {
+		return
+	}
+	var hits int64
+	inst.sinkAt("t", &hits)
+	inst.tokenAt("gw", "i1")
+	go func() { inst.cancel() }()
+	done := make(chan struct{})
+	go func() {
+		inst.proc.flowWaitGroup.Wait()
+		close(done)
+	}()
+	verifQuiesce()
+	verifReach("quiescent")
+	select {
+	case <-done:
+	default:
+		verifAssert(false, "after cancellation every token's goroutine exits")
+	}
+	verifAssert(verifGet(&hits) == 0, "a cancelled instance does not move on")
+}
+
+// a token at an exclusive gateway (probing its conditions) when the context is cancelled at an arbitrary point
+func VerifC07_ExclusiveGateway() {
+	b := verifNewB("p")
+	b.flow("in", "s", "gw", false)
+	b.exclusive("gw", []string{"in"}, []string{"f0", "fd"}, "fd")
+	b.flow("f0", "gw", "t0", true)
+	b.cond("f0", verifNondetBool("c"))
+	b.flow("fd", "gw", "td", false)
+	b.task("t0", []string{"f0"}, nil)
+	b.task("td", []string{"fd"}, nil)
+	inst := verifNewInst(b)
+	if inst.proc == nil {
+		return
+	}
+	var h0, hd int64
+	inst.sinkAt("t0", &h0)
+	inst.sinkAt("td", &hd)
+	go func() { inst.cancel() }()
+	inst.tokenAt("gw", "in")
+	done := make(chan struct{})
+	go func() {
+		inst.proc.flowWaitGroup.Wait()
+		close(done)
+	}()
+	verifQuiesce()
+	verifReach("quiescent")
+	select {
+	case <-done:
+	default:
+		verifAssert(false, "after cancellation every token's goroutine exits")
+	}
+	verifAssert(verifGet(&h0)+verifGet(&hd) <= 1, "a cancelled instance does not move on")
+}
+
+// two alternatives of an event-based gateway wait for their events when the context is cancelled
+func VerifC07_EventBasedWaiting() {
+	inst, h1, h2 := verifC06Inst()
+	if inst == nil {
+		return
+	}
+	inst.eventNodeAt("c1")
+	inst.eventNodeAt("c2")
+	inst.tokenAt("gw", "in")
+	verifQuiesce()
+	inst.cancel()
+	done := make(chan struct{})
+	go func() {
+		inst.proc.flowWaitGroup.Wait()
+		close(done)
+	}()
+	verifQuiesce()
+	verifReach("quiescent")
+	select {
+	case <-done:
+	default:
+		verifAssert(false, "after cancellation every token's goroutine exits")
+	}
+	verifAssert(verifGet(h1)+verifGet(h2) == 0, "a cancelled instance does not move on")
+}
